@@ -274,6 +274,20 @@ class History(object):
                                      'assertions' % I)
                             ok = False
                             break
+            if ok and model_valid and not use_sorts and \
+                    self.idx % 6 == 1:
+                # last step: the value of a symbol the solver was never
+                # told about (it does not occur in any simplified assertion)
+                rep.count('unasserted_symbol_queries')
+                self.trace.append(('get_value', 'zz_unasserted'))
+                try:
+                    z = env.formula_manager.Symbol('zz_unasserted')
+                    solver.get_value(z)
+                except Exception as e:
+                    self.bad('get_value/unasserted-symbol',
+                             'get_value of a symbol that occurs in no '
+                             'assertion sends an illegal command and raises '
+                             '%r' % e)
         except SolverReturnedUnknownResultError as e:
             self.bad('raises/unknown', 'solver said unknown: %r' % e)
             ok = False
@@ -295,6 +309,8 @@ class History(object):
         rep.count('commands_logged', ncmd)
         for e in entries:
             if e.get('ev') == 'reply' and e.get('legal') is False:
+                if 'zz_unasserted' in e.get('cmd', ''):
+                    continue     # reported above, by mechanism
                 self.bad('illegal-command/%s' % e.get('note'),
                          'the solver rejected %s with %s' % (
                              e.get('cmd', '')[:160], e.get('reply')))
